@@ -41,6 +41,21 @@ CHECKS = {
         "level_note": "Trusted: the reference model (sim/model.py, ~110 lines, no naunet imports), the spelling->identity tables of sim/world.py, and the reading of 'removal by instance' as the documented reaction equality applied to held reactions. Call-boundary interleavings only (naunet is single-threaded and never yields inside a call).",
         "technique": "deterministic simulation: seeded scheduler over multi-session edit histories with I/O fault injection, step-by-step refinement check against an executable reference model, ddmin-minimised replay files",
     },
+    "C17": {
+        "property_id": "C17",
+        "quick_cmd": "timeout 1200 ./check C17 quick",
+        "thorough_cmd": "timeout 7200 ./check C17 thorough",
+        "evidence_file": "evidence/C17.json",
+        "replay_cmd_template": "./check --replay {path}",
+        "engine": "pysim",
+        "level_claimed": {
+            "category": "exploration",
+            "text": "2-4 scripted sessions drawn from a library of ~50 literal network descriptions (API networks in kida/umist/naunet/krome formats with mixed-case and upper-case element lists, '#' and 'G' surface prefixes, grain models, rate/ODE modifiers, KROME @var/@common/@format directives; CLI projects with replacement tables, binding energies, photon yields) are interleaved step by step by a seeded scheduler in one interpreter, with foreign writers of the parser tables, simulated-clock jumps across month/year ends, aborted neighbours (corrupted file, abandoned session) and failed-and-retried steps of the victim (open failure, disk-full during render). Every rendering - first, repeated, after an edit - must be byte-identical (sha256 per file) to the rendering of the same description alone in a pristine interpreter under two other hash seeds. Sampling, not proof.",
+            "design_ref": "DESIGN.md section 4",
+        },
+        "level_note": "Trusted: the same tree's own solo rendering as reference (C17 cannot say whether it is right, only whether it is the same); a forked child of a pristine post-import interpreter counts as a fresh interpreter. Victim sessions always carry explicit element lists; bare Species/Reaction constructions are atomic with installing the session's lists.",
+        "technique": "deterministic simulation: seeded interleaving of multi-session build/edit/render scripts with fault and clock injection, differential oracle against solo fresh-interpreter renderings, ddmin-minimised replay schedules",
+    },
     "C19": {
         "property_id": "C19",
         "quick_cmd": "timeout 900 ./check C19 quick",
@@ -81,7 +96,7 @@ def main():
             "add_only": True,
         },
         "engines": [
-            {"name": "pysim", "path": "sim/c14.py", "serves_properties": ["C14"],
+            {"name": "pysim", "path": "sim/c14.py", "serves_properties": ["C14", "C17"],
              "kind_free_text": "in-process multi-session simulator of the Python package: seeded scheduler, patched open/clock/tqdm seams, reference models, ddmin, replay files"},
             {"name": "cxxsim", "path": "sim/c19.py", "serves_properties": ["C19"],
              "kind_free_text": "rendered C++ compiled against a scripted mock integrator; seeded fault sequences, ddmin, replay files"},
